@@ -115,16 +115,14 @@ fn install_factory() {
 fn registry_clear() {
     registry().lock().unwrap().clear();
 }
-/// the log of the (factory-made) tracer of the session whose first entered state is `state`
+/// the log of the (factory-made) tracer of the session that has entered `state` (state names are
+/// unique per role within a world and the registry is cleared per world)
 fn registry_find(state: &str) -> Option<RLog> {
     for l in registry().lock().unwrap().iter() {
         for r in l.lock().unwrap_or_else(|e| e.into_inner()).iter() {
             if let Rec::State(w, n) = r {
-                if w == "enter" {
-                    if n == state {
-                        return Some(l.clone());
-                    }
-                    break;
+                if w == "enter" && n == state {
+                    return Some(l.clone());
                 }
             }
         }
@@ -1456,9 +1454,15 @@ fn start_world_doc(xml: &str, executor: &FsmExecutor, rec: &RecLog) -> Result<(S
 struct Ids {
     seen_sessions: std::collections::HashSet<u32>,
     seen_generated: std::collections::HashSet<String>,
+    /// worlds whose sessions did not come up (after three the family stops starting worlds)
+    start_failures: u32,
 }
 
 fn c15_run_world(w: &WorldSpec, model: &mut Model, rep: &mut Report, origin: &str, ids_seen: &mut Ids) {
+    if ids_seen.start_failures >= 3 {
+        rep.count("worlds_not_started_after_repeated_start_failures");
+        return;
+    }
     registry_clear();
     let executor = FsmExecutor::new_without_io_processor();
     let rec: RecLog = Arc::new(Mutex::new(Vec::new()));
@@ -1540,6 +1544,7 @@ fn c15_run_world(w: &WorldSpec, model: &mut Model, rep: &mut Report, origin: &st
         }
         if !wait_desc(r, w, &mut live, &executor, &ids) {
             rep.count("world_start_failed");
+            ids_seen.start_failures += 1;
             rep.disagree(json!({"origin": origin, "impl_error": "invoked session did not start or id prediction failed", "ids": ids}));
             cancel_all(&executor);
             return;
@@ -2173,7 +2178,7 @@ pub fn run_c15(args: &Args, model: &mut Model) -> Report {
          creation (ids distinct, block predicted by the counter model).",
     );
     install_factory();
-    let mut ids_seen = Ids { seen_sessions: Default::default(), seen_generated: Default::default() };
+    let mut ids_seen = Ids { seen_sessions: Default::default(), seen_generated: Default::default(), start_failures: 0 };
     // constants of the model are the crate's
     {
         use rufsm::event_io_processor::scxml_event_io_processor as sp;
